@@ -3,3 +3,4 @@ pub mod core;
 pub mod engines;
 pub mod prng;
 pub mod refmodel;
+pub mod simstore;
